@@ -371,9 +371,18 @@ def install(lib, np_):
 
   @ext('numpy.percentile')
   def _percentile(cx, a, q, **kw):
+    nonneg = isinstance(a, VArr) and cx.st(a).tag == ('nonneg',)
     if isinstance(q, (VTuple, VList)):
-      return cx.new(None, [len(q.items)], 'f')
-    return VReal(fresh('pct', z3.RealSort()))
+      r = cx.new(None, [len(q.items)], 'f')
+      if nonneg:
+        j = z3.Int('j!pct')
+        rt = cx.st(r).term
+        cx.p.assume(z3.ForAll([j], TH.at1(rt, j) >= 0, patterns=[TH.at1(rt, j)]))     # ASSUMED: percentiles of non-negative numbers are >= 0
+      return r
+    t = fresh('pct', z3.RealSort())
+    if nonneg:
+      cx.p.assume(t >= 0)
+    return VReal(t)
 
   @ext('numpy.fill_diagonal', 'ASSUMED: writes val on the diagonal IN PLACE')
   def _fill_diagonal(cx, a, val, **kw):
@@ -764,7 +773,9 @@ def install(lib, np_):
     s = st_of(cx, X)
     n = s.shape.dims[0]
     if Y is None or isinstance(Y, VNone):
-      return cx.new(TH.pdist2(s.term) if s.term is not None else None, [n, n], 'f')
+      r = cx.new(TH.pdist2(s.term) if s.term is not None else None, [n, n], 'f')
+      cx.p.store[r.loc] = cx.p.store[r.loc].replace(tag=('nonneg',))       # distances are >= 0
+      return r
     sy = st_of(cx, Y)
     cx.may_raise('ValueError', s.shape.dims[1] != sy.shape.dims[1], 'incompatible dimension for X and Y')
     return cx.new(None, [n, sy.shape.dims[0]], 'f')
